@@ -22,6 +22,16 @@ fn needs_escape(v: &[KP]) -> bool {
     })
 }
 
+fn has_braced_escape(input: &[u8]) -> bool {
+    input.windows(3).enumerate().any(|(i, w)| {
+        w == b"\\u{" && {
+            let rest = &input[i + 3..];
+            let n = rest.iter().take_while(|b| b.is_ascii_hexdigit()).count();
+            n >= 1 && rest.get(n) == Some(&b'}')
+        }
+    })
+}
+
 pub fn judge_raw(input: &[u8], acc: &mut Acc) {
     acc.eval();
     let show = || json!({"input": String::from_utf8_lossy(input), "hex": refmodel::layout::hex(input)});
@@ -50,7 +60,11 @@ pub fn judge_raw(input: &[u8], acc: &mut Acc) {
             other => acc.vio("print-parse:not-faithful", || json!({"input": String::from_utf8_lossy(input), "printed": printed, "elements": format!("{:?}", g), "reparsed": format!("{:?}", other.map(|r| r.ok()))})),
         }
     };
-    match (parse_keypaths(input), got) {
+    // the braced escape `\u{H..}` is an extension of the crate's un-escaper that neither the property nor
+    // the documentation defines: with a complete one in the input only "never a panic" (above) and the
+    // printing clause are demanded
+    let model = if has_braced_escape(input) { Verdict::Unspecified("braced escape \\u{..}".into()) } else { parse_keypaths(input) };
+    match (model, got) {
         (Verdict::Accept(m), Ok((g, printed))) => {
             acc.outcome("accept/accept");
             acc.nontrivial += 1;
@@ -200,9 +214,10 @@ pub fn spaces(tier: Tier) -> Vec<Space<'static>> {
         }));
     }
     // every sequence of <= 3 units over escapes (all two-character escapes, surrogate halves, a BMP
-    // escape) and ordinary characters that can follow them (u, blank, -, a), in quoted and plain names
+    // escape, the braced form \\u{..} whole and cut) and ordinary characters that can follow them (u, blank, -, a, }), in
+    // quoted and plain names
     {
-        const U: [&str; 16] = ["\\/", "\\b", "\\f", "\\n", "\\r", "\\t", "\\\"", "\\\\", "\\ud800", "\\udc00", "\\u0041", "u", " ", "-", "a", "\\uD83D"];
+        const U: [&str; 20] = ["\\/", "\\b", "\\f", "\\n", "\\r", "\\t", "\\\"", "\\\\", "\\ud800", "\\udc00", "\\u0041", "u", " ", "-", "a", "\\uD83D", "\\u{0041}", "\\u{1F600}", "\\u{", "}"];
         let n = U.len() as u64;
         let total: u64 = (1..=3u32).map(|k| n.pow(k)).sum();
         sp.push(Space::new("names: every sequence of <= 3 units over the escapes and the characters that may follow them", total, move |idx, acc| {
